@@ -354,6 +354,36 @@ func c07Captures(c *Check, fns []*ssa.Function) {
 					bad = fmt.Sprintf("store at %s: %s", p.pos(st.Pos()), why)
 				}
 			})
+			// entries filed in a map the goroutines share (a captured map, a map
+			// reached through a captured variable): Go maps do not tolerate two
+			// writers — unless a lock taken in the closure dominates the update
+			eachInstr(fn, func(_ *ssa.BasicBlock, j ssa.Instruction) {
+				mu, ok := j.(*ssa.MapUpdate)
+				if !ok || loop == nil {
+					return
+				}
+				shared := false
+				for _, r := range rootsOf(mu.Map) {
+					if r.Kind == rFree || r.Kind == rGlobal {
+						shared = true
+					}
+				}
+				if !shared {
+					return
+				}
+				nw++
+				locked := false
+				eachInstr(fn, func(_ *ssa.BasicBlock, k ssa.Instruction) {
+					if cl, ok := k.(ssa.CallInstruction); ok {
+						if o := calleeObj(cl); o != nil && o.Pkg() != nil && o.Pkg().Path() == "sync" && (o.Name() == "Lock") && instrDominates(k, mu) {
+							locked = true
+						}
+					}
+				})
+				if !locked && bad == "" {
+					bad = fmt.Sprintf("map update at %s: the map is shared by the goroutines started in this loop and no lock taken in the closure precedes the update (concurrent map writes are a fatal error)", p.pos(mu.Pos()))
+				}
+			})
 			key := fmt.Sprintf("%s|goroutine closure writes", fnName(fn))
 			if bad != "" {
 				c.Flagf("GOROUTINE-CAPTURE", key, p.pos(mc.Pos()), "a goroutine closure writes shared state without a lock — %s", bad)
